@@ -230,9 +230,9 @@ Theorem C18_poisson_total lambda us : 0 <= lambda ->
 Proof. exact (poisson_total lambda us). Qed.
 Print Assumptions C18_poisson_total.
 
-(** ** boundary of the stream (known finding K-C18-1): the canonical uniform 0 makes Sample_Gauss terminate the
-    process — Inv_Erf(-1) takes its `|p| >= 1` exit although Inv_Erf(+1) returns 10; in doubles this happens for
-    every canonical uniform <= 2^-55.  The containment theorems above speak about calls that return ([Ok]). *)
-Theorem C18_sample_gauss_exits_at_zero mean sd r : sample_gauss ROps mean sd (0 :: r) = Exit.
-Proof. exact (sample_gauss_exits_at_zero mean sd r). Qed.
-Print Assumptions C18_sample_gauss_exits_at_zero.
+(** ** boundary of the stream: the canonical uniform 0 (in doubles: every canonical uniform <= 2^-55) makes Sample_Gauss
+    return mean - 10 sqrt(2) sd — Inv_Erf(-1) returns -10 as Inv_Erf(+1) returns 10 (before the repair it terminated
+    the process).  The containment theorems above speak about calls that return ([Ok]). *)
+Theorem C18_sample_gauss_at_zero mean sd r : sample_gauss ROps mean sd (0 :: r) = Ok (mean + sqrt 2 * sd * - (10), r).
+Proof. exact (sample_gauss_at_zero mean sd r). Qed.
+Print Assumptions C18_sample_gauss_at_zero.
